@@ -644,3 +644,5 @@ def summarize(results, tier):
         "samples": samples[:6],
         "exhaustive": True,
     }
+
+RULE += ' Session 4: dispatch dataset that cannot be evaluated when its option is absent (concrete and abstract).'
